@@ -172,11 +172,8 @@ func c31(c *core.Ctx) {
 		consults := liftedSites(accessFn, isConsult)
 		loops := ssax.Loops(accessFn)
 		bad := ""
-		for _, r := range ssax.Returns(accessFn) {
-			if r.Block() == accessFn.Recover {
-				continue
-			}
-			v := ssax.Strip(ssax.RetVal(r, 0))
+		for _, rp := range boolReturnPoints(accessFn) {
+			v, r := rp.v, rp.at
 			if k, ok := v.(*ssa.Const); ok && k.Value != nil && k.Value.String() == "false" {
 				continue
 			}
@@ -927,11 +924,8 @@ func permitHelper(c *core.Ctx, h, accessFn *ssa.Function, getAttr *types.Func) b
 	}
 	okAll := len(calls) > 0
 	detail := "Access returns constant false, a helper result, or — where every preceding helper result is known true — anything"
-	for _, r := range ssax.Returns(accessFn) {
-		if r.Block() == accessFn.Recover {
-			continue
-		}
-		v := ssax.Strip(ssax.RetVal(r, 0))
+	for _, rp := range boolReturnPoints(accessFn) {
+		v, r := rp.v, rp.at
 		if k, ok := v.(*ssa.Const); ok && k.Value != nil && k.Value.String() == "false" {
 			continue
 		}
@@ -955,4 +949,41 @@ func permitHelper(c *core.Ctx, h, accessFn *ssa.Function, getAttr *types.Func) b
 	}
 	c.Ob("C31.failclosed", fname(accessFn)+"·honours the result of "+fname(h), c.P.Pos(accessFn.Pos()), okAll, detail)
 	return true
+}
+
+// boolReturnPoints: the values f can return as result 0, each with the point where it is decided: `return a() && b()`
+// returns a phi of (false, from the block that evaluated a) and (b's result, from the block that evaluated b) — each
+// edge is judged where it comes from, with the facts that hold there.
+type retPoint struct {
+	v  ssa.Value
+	at ssa.Instruction
+}
+
+func boolReturnPoints(f *ssa.Function) []retPoint {
+	var out []retPoint
+	var expand func(v ssa.Value, at ssa.Instruction, d int)
+	expand = func(v ssa.Value, at ssa.Instruction, d int) {
+		v = ssax.Strip(v)
+		if ph, ok := v.(*ssa.Phi); ok && d < 4 {
+			if _, isBool := ph.Type().Underlying().(*types.Basic); isBool {
+				for i, e := range ph.Edges {
+					pred := ph.Block().Preds[i]
+					if len(pred.Instrs) == 0 {
+						out = append(out, retPoint{v, at})
+						return
+					}
+					expand(e, pred.Instrs[len(pred.Instrs)-1], d+1)
+				}
+				return
+			}
+		}
+		out = append(out, retPoint{v, at})
+	}
+	for _, r := range ssax.Returns(f) {
+		if r.Block() == f.Recover || len(r.Results) == 0 {
+			continue
+		}
+		expand(ssax.RetVal(r, 0), r, 0)
+	}
+	return out
 }
